@@ -292,15 +292,19 @@ impl RecWriter {
     }
 }
 impl microscpi::Write for RecWriter {
+    // every method first passes a suspension point (0 suspensions unless a case sets a pattern)
     async fn write_bytes(&mut self, bytes: &[u8]) -> Result<(), Error> {
+        susp().await;
         self.put(bytes)
     }
     async fn write_char(&mut self, c: char) -> Result<(), Error> {
+        susp().await;
         let _p = Pause::new();
         let mut b = [0u8; 4];
         self.put(c.encode_utf8(&mut b).as_bytes())
     }
     async fn write_str(&mut self, s: &str) -> Result<(), Error> {
+        susp().await;
         self.put(s.as_bytes())
     }
     async fn write_fmt(&mut self, fmt: core::fmt::Arguments<'_>) -> Result<(), Error> {
@@ -320,6 +324,7 @@ impl microscpi::Write for RecWriter {
         }
     }
     async fn flush(&mut self) -> Result<(), Error> {
+        susp().await;
         let _p = Pause::new();
         log(json!({"e": "flush"}));
         Ok(())
